@@ -294,3 +294,68 @@ func verifC19PoolKeys() {
 	}
 	vReach("keys")
 }
+
+// verifC14Chain: alias chains of 1..6 hops (the limit is 4 HTTPS lookups), and
+// NXDOMAIN / empty answers on the HTTPS lookup: bounded queries, fall-back to the
+// origin's addresses when the chain is too long, NXDOMAIN on HTTPS = absence.
+func verifC14Chain() {
+	origin := "o.example"
+	hops := vInt(0, 6)
+	nx := vBool() // the last name of the chain answers NXDOMAIN to HTTPS instead of a service record
+	name := func(i int) string {
+		if i == 0 {
+			return origin
+		}
+		return string([]byte{'a' + byte(i)}) + ".alias.example"
+	}
+	z := &vZone{}
+	z.answer = func(q vQuery) (*dns.Message, error) {
+		m := &dns.Message{QR: 1}
+		idx := -1
+		for i := 0; i <= hops; i++ {
+			if q.name == name(i) {
+				idx = i
+			}
+		}
+		vAssert(idx >= 0, "only names of the chain are queried")
+		switch q.typ {
+		case 65:
+			if idx < hops {
+				m.Answer = append(m.Answer, dns.RR{Name: q.name, Type: 65, Class: 1, TTL: 60, Data: dns.HTTPS{Priority: 0, Target: name(idx + 1)}})
+			} else if nx {
+				m.RCode = 3
+			} else {
+				m.Answer = append(m.Answer, dns.RR{Name: q.name, Type: 65, Class: 1, TTL: 60, Data: dns.HTTPS{Priority: 1, ECH: []byte{byte(idx)}}})
+			}
+		case 1:
+			m.Answer = append(m.Answer, dns.RR{Name: q.name, Type: 1, Class: 1, TTL: 60, Data: net.IP{10, 0, 0, byte(idx)}})
+		}
+		return m, nil
+	}
+	z.install()
+	r := &Resolver{}
+	res, err := r.Resolve(context.Background(), origin)
+	vAssert(err == nil, "resolution succeeds (NXDOMAIN on the HTTPS lookup is absence)")
+	nHTTPS := 0
+	for _, q := range z.queries {
+		if q.typ == 65 {
+			nHTTPS++
+		}
+	}
+	vAssert(nHTTPS <= 4, "at most 4 HTTPS lookups")
+	vAssert(len(z.queries) <= 4+2, "bounded number of queries")
+	vAssert(len(res.Address) == 1, "one address")
+	if hops <= 3 {
+		// the chain is followed to its end: addresses are those of the final alias target
+		vAssert(res.Address[0][3] == byte(hops), "addresses of the final alias target")
+		if nx {
+			vAssert(len(res.HTTPS) == 0, "no HTTPS record")
+		} else {
+			vAssert(len(res.HTTPS) == 1 && res.HTTPS[0].ECH[0] == byte(hops), "service record of the final alias target")
+		}
+	} else {
+		// too long: fall back to the origin without HTTPS records
+		vAssert(res.Address[0][3] == 0 && len(res.HTTPS) == 0, "alias chain too long: plain resolution of the origin")
+	}
+	vReach("chain")
+}
